@@ -134,6 +134,12 @@ def make_shape(n):
                     en.must_hold(f if isinstance(f, bool) else SBool(f), "shape", case, detail="output line %d does not derive from input line %d in order" % (expect_kept.index(i), i))
         # the provider level: an empty result becomes a content error so that nothing is written
         if not NATIVE:
+            if all(k == "empty" for k in kinds) and en.flag("spec_no_redact"):
+                # the spec is exempt from pattern redaction (only obfuscation is scheduled for it): blank-only content is still not stored
+                written, err = provider_write(cl, lines, ["password"] if noparsers else [], True)
+                case2 = lambda mv: {"kind": "shape", "kinds": kinds, "lines": [mv.str(x) for x in lines], "no_parsers": noparsers, "spec_no_redact": True}  # noqa
+                en.must_hold(err is not None and not written, "empty-not-stored", case2, detail="an all-blank spec exempt from redaction was written (%r)" % (written,))
+                return
             written, err = provider_write(cl, lines, ["password"] if noparsers else [])
             if blank or all(k == "dropped" for k in kinds) and not noparsers:
                 en.must_hold(err is not None and not written, "empty-not-stored", case, detail="an all-blank spec was written (%r)" % (written,))
@@ -145,11 +151,12 @@ def make_shape(n):
 class _DS(object):
     no_redact = False
 
-    def __init__(self, no_obf):
+    def __init__(self, no_obf, no_redact=False):
         self.no_obfuscate = list(no_obf)
+        self.no_redact = no_redact
 
 
-def provider_write(cl, lines, no_obf):
+def provider_write(cl, lines, no_obf, no_redact=False):
     """DatasourceProvider.write under a HostContext with open()/ensure_path recorded instead of touching the disk"""
     written = []
 
@@ -169,7 +176,7 @@ def provider_write(cl, lines, no_obf):
     SF.open = lambda p, mode="r": F(p)
     SF.fs.ensure_path = lambda p, mode=0o755: None
     try:
-        prov = SF.DatasourceProvider(list(lines), "insights_commands/test", ds=_DS(no_obf), ctx=HostContext(), cleaner=cl)
+        prov = SF.DatasourceProvider(list(lines), "insights_commands/test", ds=_DS(no_obf, no_redact), ctx=HostContext(), cleaner=cl)
         try:
             prov.write("/out/data/insights_commands/test")
             return written, None
@@ -210,13 +217,15 @@ def make_allow_order():
 
 
 # ------------------------------------------------------------------ O3: a fresh cleaner does not depend on cleaners created earlier in the process
-EARLIER = [None, ("db7.corp.acme.org", "db7.corp.acme.org and mx.corp.acme.org"), ("web.other.example", "web.other.example up"), ("shorthost", "shorthost and x.corp.acme.org")]
+EARLIER = [None, ("db7.corp.acme.org", "db7.corp.acme.org and mx.corp.acme.org"), ("web.other.example", "web.other.example up"), ("shorthost", "shorthost and x.corp.acme.org"),
+           ("macs.example.org", "hw 52:54:00:AB:CD:EF and 0A:1B:2C:3D:4E:5F from 192.168.7.9")]
 LATER = [("buildhost", "db7.corp.acme.org talks to mx.corp.acme.org from 10.1.2.3"), ("myhost.example.org", "myhost.example.org and db1.example.org and a.corp.acme.org"),
-         ("n1.corp.acme.org", "n1.corp.acme.org n2.corp.acme.org web.other.example")]
+         ("n1.corp.acme.org", "n1.corp.acme.org n2.corp.acme.org web.other.example"),
+         ("plain.example.org", "link/ether 52:54:00:ab:cd:ef and 0a:1b:2c:3d:4e:5f at 192.168.7.9 and 10.0.0.1")]
 
 
 def fresh_output(fqdn, text):
-    cl = K.make_cleaner(K.Cfg(hostname=True, mac=False), fqdn=fqdn)
+    cl = K.make_cleaner(K.Cfg(hostname=True, mac=True), fqdn=fqdn)
     out = cl.clean_content([text])
     return out, sorted((m["original"], m["obfuscated"]) for m in cl.obfuscate["hostname"].mapping())
 
@@ -242,6 +251,20 @@ def fresh_references():
         FRESH_REF[fq] = (out, sorted(tuple(x) for x in mp))
 
 
+def fresh_in_child(e, fq, text):
+    import json
+    here = os.path.dirname(os.path.dirname(os.path.abspath(__file__)))
+    code = ("import json, sys, os\nsys.path.insert(0, %r); sys.path.insert(1, %r)\nos.environ['SYMX_NATIVE'] = '1'\nfrom props import C10\n"
+            "e, fq, text = json.loads(sys.argv[1])\nif e:\n    C10.fresh_output(e[0], e[1])\nprint(json.dumps(C10.fresh_output(fq, text)))\n") % (here, os.environ.get("VERIF_REPO", "/repo"))
+    env = dict(os.environ)
+    env["SYMX_NATIVE"] = "1"
+    p = subprocess.run([sys.executable, "-c", code, json.dumps([list(e) if e else None, fq, text])], capture_output=True, text=True, env=env, timeout=120)
+    if p.returncode != 0:
+        raise RuntimeError("child interpreter failed: %s" % p.stderr[-400:])
+    out, mp = json.loads(p.stdout.strip().splitlines()[-1])
+    return (list(out), sorted(tuple(x) for x in mp))
+
+
 def make_fresh():
     def fn(en):
         e = EARLIER[en.choice("earlier", len(EARLIER))]
@@ -249,10 +272,9 @@ def make_fresh():
         case = lambda mv: {"kind": "fresh", "earlier": list(e) if e else None, "later": [fq, text]}  # noqa
         en.note_sample(case)
         ref = FRESH_REF[fq]
-        if e:
-            fresh_output(e[0], e[1])
-        got = fresh_output(fq, text)
-        got = (list(got[0]), sorted(tuple(x) for x in got[1]))
+        # process-level state is the subject: every case runs in its own uninstrumented interpreter (earlier cleaner, then the fresh
+        # one), so that nothing an earlier path left behind in this worker can mask or fake a difference
+        got = fresh_in_child(e, fq, text)
         en.must_hold(got == (list(ref[0]), ref[1]), "order-fixed", case, detail="a fresh cleaner for %s gives %r in a pristine process; after another cleaner was used in this process it gives %r" % (fq, ref, got))
     return fn
 
@@ -338,10 +360,7 @@ def _native(case):
         fq, text = case["later"]
         fresh_references()
         ref = FRESH_REF[fq]
-        if case["earlier"]:
-            fresh_output(*case["earlier"])
-        got = fresh_output(fq, text)
-        got = (list(got[0]), sorted(tuple(x) for x in got[1]))
+        got = fresh_in_child(case["earlier"], fq, text)
         return [] if got == (list(ref[0]), ref[1]) else ["a fresh cleaner for %s gives %r in a pristine process; after another cleaner was used in this process it gives %r" % (fq, ref, got)]
     kinds, lines = case["kinds"], case["lines"]
     n = len(kinds)
@@ -367,6 +386,9 @@ def _native(case):
                     bad.append("line %d became %r" % (i, o))
             elif not o.startswith("ABCD"[i] + " password=********"):
                 bad.append("line %d became %r" % (i, o))
+    if case.get("spec_no_redact"):
+        written, err = provider_write(cl, lines, ["password"] if case["no_parsers"] else [], True)
+        return bad + (["an all-blank spec exempt from redaction was written: %r" % (written,)] if (err is None or written) else [])
     written, err = provider_write(cl, lines, ["password"] if case["no_parsers"] else [])
     if blank or (all(k == "dropped" for k in kinds) and not case["no_parsers"]):
         if err is None or written:
